@@ -91,3 +91,26 @@ ALLOCATE = Contract(
              "the sequence clause (every address once, then exhaustion) follows by induction over calls from this "
              "single-call contract: each call marks exactly one free entry, entries are never unmarked here"],
 )
+
+
+# ---------------------------------------------------------------- mask_bit getter: netmask -> prefix length
+# 'netmask and prefix length convert into each other consistently' needs the getter to be a function of the *current*
+# netmask: it must not keep state of its own.  The digit arithmetic (bin / zfill / rstrip) is uninterpreted here; the
+# numeric exactness for all 33 prefixes is enumerated by the bounded stand-in.
+_schema.SCHEMA["VMNetconfig"]["fields"]["_netmask"] = STR
+_schema.SCHEMA["VMNetconfig"]["open_fields"] = True
+_schema.SCHEMA["VMNetconfig"]["props"]["netmask"] = (
+    lambda eng, st, o, node: iter([(st, eng.read_field(st, o, "VMNetconfig", "_netmask", STR))]))
+
+MASK_BIT_GET = Contract(
+    target=f"{NETCONFIG}::VMNetconfig.mask_bit", name="VMNetconfig.mask_bit[getter]",
+    params={"self": Ref("VMNetconfig"), "value": NONE},
+    requires=["self._netmask is not None"],
+    loops={0: {"invariants": ["True"], "kinds": {"binary_str": STR, "octet": STR}}},
+    raises={"ValueError": None},
+    ensures=[("answers_from_the_netmask", "result is not None")],
+    frame=[],      # a getter keeps no state: the answer always follows the current netmask
+    props=["C18"],
+    assumes=["string fields are non-None strings in the model (the `netmask is None` branch is not reachable here)",
+             "bin / zfill / rstrip are uninterpreted: only the absence of side effects is decided here"],
+)
